@@ -60,8 +60,8 @@ def ast_pin(ctx):
         ref = _norm_class(CALLABLE_REFERENCE)
         ctx.obligation("translate:_InteractionMatrixCallable == Model.callable (AST pin)", real == ref,
                        f"source AST differs from the modelled function:\n{real}\nvs\n{ref}", kind="translator")
-    except (OSError, SyntaxError, IndexError) as ex:
-        ctx.obligation("translate:_InteractionMatrixCallable == Model.callable (AST pin)", False, str(ex),
+    except Exception as ex:  # noqa: BLE001
+        ctx.obligation("translate:_InteractionMatrixCallable == Model.callable (AST pin)", False, repr(ex),
                        kind="translator")
 
 
@@ -121,9 +121,27 @@ def gen_case(rng, malformed=False):
             "slm_end": slm_end, "ts": ts, "shift": shift, "kind": "malformed" if malformed else "valid"}
 
 
+_TEMPLATE = {}
+
+
+def template_pulserdata():
+    """a REAL PulserData (real __init__ on a real 2-atom SLM sequence whose mask pulse starts at t = 0); the bulk
+    route overrides only the inputs of get_sequences that the model reads, so attributes the source may add keep
+    the values the real constructor gives them"""
+    if "pd" not in _TEMPLATE:
+        from pulser.backend import EmulationConfig, BitStrings
+        from emu_base.pulser_adapter import PulserData
+
+        spec = {"n": 2, "spacing": 6.0, "xy": False, "targets": [0], "pulses": [16], "delay": 0, "local_first": False}
+        cfg = EmulationConfig(observables=[BitStrings(evaluation_times=[1.0])], interaction_cutoff=0.0)
+        _TEMPLATE["pd"] = PulserData(sequence=build_sequence(spec), config=cfg, dt=8)
+    return _TEMPLATE["pd"]
+
+
 def impl_run(case):
     """the REAL get_sequences + callable on the case's data; returns integer matrices per query time and the
     result of the no-mutation / no-aliasing checks"""
+    import copy
     import torch
     from emu_base import pulser_adapter
     from emu_base.pulser_adapter import PulserData
@@ -138,12 +156,14 @@ def impl_run(case):
     tt0, user0 = tt.clone(), None if user is None else user.clone()
     sample = SimpleNamespace(trajectory=SimpleNamespace(interaction_matrix=_Arr(tt), bad_atoms={i: False for i in ids}),
                              samples=None, reps=1)
-    stub = SimpleNamespace(
-        hamiltonian=SimpleNamespace(noisy_samples=[sample]), full_interaction_matrix=user,
-        interaction_cutoff=case["cutoff"] * s,
-        _sequence=SimpleNamespace(_slm_mask_targets=[ids[i] for i in case["targets"]], register=_Reg(ids)),
-        qubit_ids=tuple(ids), target_times=[0.0, 1.0], slm_end_time=case["slm_end"] * s, lindblad_ops=[],
-        noise_model=SimpleNamespace(state_prep_error=0.0), eigenstates=["r", "g"], hamiltonian_type=None)
+    stub = copy.copy(template_pulserdata())
+    stub.hamiltonian = SimpleNamespace(noisy_samples=[sample])
+    stub.full_interaction_matrix = user
+    stub.interaction_cutoff = case["cutoff"] * s
+    stub._sequence = SimpleNamespace(_slm_mask_targets=[ids[i] for i in case["targets"]], register=_Reg(ids))
+    stub.qubit_ids = tuple(ids)
+    stub.qubit_count = n
+    stub.slm_end_time = case["slm_end"] * s
     saved = pulser_adapter._extract_omega_delta_phi
     pulser_adapter._extract_omega_delta_phi = lambda *a, **k: (None, None, None)
     try:
@@ -193,7 +213,6 @@ def spec_oracle(M, src, cutoff, masked, t, slm_end):
 # ---------------------------------------------------------------------------------------------------
 # real sequences through PulserData.__init__, and backend query times
 def build_sequence(spec):
-    import numpy as np
     import pulser
 
     n = spec["n"]
@@ -206,17 +225,30 @@ def build_sequence(spec):
         seq.declare_channel("ch", "rydberg_global")
     if spec["targets"]:
         seq.config_slm_mask([f"q{i}" for i in spec["targets"]])
+    if spec.get("local_first") and not spec["xy"]:
+        # a local-channel pulse before the first global pulse (on an atom that is not masked if there is one)
+        free = [i for i in range(n) if i not in spec["targets"]] or [0]
+        seq.declare_channel("loc", "rydberg_local", initial_target=f"q{free[0]}")
+        seq.add(pulser.Pulse.ConstantPulse(12, 1.0, 0.0, 0.0), "loc")
+    if spec.get("delay"):
+        seq.delay(spec["delay"], "ch")   # the first global pulse (= the SLM pulse) starts at ti > 0
     for dur in spec["pulses"]:
         seq.add(pulser.Pulse.ConstantPulse(dur, 1.0, 0.0 if spec["xy"] else -1.0, 0.0), "ch")
     return seq
 
 
-def gen_seq_spec(rng, small=False):
+def gen_seq_spec(rng, small=False, late_mask=None):
     n = rng.choice([2, 3]) if small else rng.choice([2, 3, 4, 5])
     k = rng.randint(0, n - 1)
-    return {"n": n, "spacing": rng.choice([5.0, 6.0, 8.0]), "xy": (not small) and rng.random() < 0.3,
+    late = (rng.random() < 0.5) if late_mask is None else late_mask
+    xy = ((not small) and rng.random() < 0.3) if late_mask is None else (not small and rng.random() < 0.7)
+    if late:
+        k = max(k, 1)
+    return {"n": n, "spacing": rng.choice([5.0, 6.0, 8.0]), "xy": xy,
             "targets": sorted(rng.sample(range(n), k)),
             "pulses": [rng.choice([16, 20, 32]) for _ in range(rng.choice([1, 2, 3]))],
+            "delay": rng.choice([16, 24, 40]) if late else 0,
+            "local_first": (not xy) and rng.random() < 0.3,
             "custom": rng.random() < 0.5, "cutoff": rng.choice([0.0, 0.0, 0.5, 2.0]),
             "dt": rng.choice([4, 8, 10])}
 
@@ -254,11 +286,17 @@ def run_pulserdata(ctx, spec):
         return None, False
     smt = list(seq._slm_mask_time)
     want_end = smt[1] if len(smt) > 1 else 0.0
-    expect_first_pulse_end = float(spec["pulses"][0]) if spec["targets"] else 0.0
+    want_start = float(smt[0]) if len(smt) > 1 else 0.0
     problems = []
-    if pd.slm_end_time != want_end or (not spec["xy"] and float(want_end) != expect_first_pulse_end):
-        problems.append(("slm-end-time", f"slm_end_time={pd.slm_end_time}, sequence says {smt}, first pulse ends at "
-                                         f"{expect_first_pulse_end}"))
+    got_end = getattr(pd, "slm_end_time", None)
+    if got_end is not None and got_end != want_end:
+        problems.append(("slm-end-time", f"slm_end_time={got_end}, sequence says {smt}"))
+    if spec["targets"] and not spec.get("local_first"):
+        # independent of pulser's bookkeeping: the mask ends with the first pulse of the global channel; for XY the
+        # window starts with that pulse (ti = delay), with a DMM (ising) it starts at 0
+        expect = [float(spec.get("delay", 0)) if spec["xy"] else 0.0, float(spec.get("delay", 0) + spec["pulses"][0])]
+        if [float(x) for x in smt] != expect:
+            problems.append(("slm-window", f"pulser reports the SLM window {smt}, the sequence was built with {expect}"))
     sds = list(pd.get_sequences())
     sample = next(iter(pd.hamiltonian.noisy_samples))
     traj = sample.trajectory.interaction_matrix.as_tensor()
@@ -269,11 +307,25 @@ def run_pulserdata(ctx, spec):
     if any(srcl[i][j] != srcl[j][i] for i in range(n) for j in range(n)) or any(srcl[i][i] != 0 for i in range(n)):
         problems.append(("source-not-symmetric", "source matrix is not symmetric with zero diagonal"))
     T = float(pd.target_times[-1])
-    for t in sorted({0.0, T, float(want_end), float(want_end) - 0.5, float(want_end) + 0.5, T / 3, *pd.target_times}):
+    tt = [float(x) for x in pd.target_times]
+    mids = [0.5 * (a + b) for a, b in zip(tt[:-1], tt[1:])]     # emu-mps queries mid(t0,t1); both query the t_k
+    grid = {0.0, T, float(want_end), float(want_end) - 0.5, float(want_end) + 0.5, T / 3, want_start,
+            want_start - 0.5, want_start / 2, want_start + 0.5, 0.5 * (want_start + float(want_end)), *tt, *mids}
+    masked = set(spec["targets"])
+    # pulser's sampler mutes the masked atoms from t = 0 (pulser/sampler/samples.py: `start_t = self._slm_mask.end
+    # if in_xy else 0`, masked samples are dropped on [0, end)), so the mask applies for EVERY t < slm_end, also
+    # before the first global pulse starts (t < ti)
+    for t in sorted(x for x in grid if 0.0 <= x <= T):
         M = sds[0].interaction_matrix(t).tolist()
-        bad = spec_oracle(M, srcl, spec["cutoff"], set(spec["targets"]), t, float(want_end))
+        bad = spec_oracle(M, srcl, spec["cutoff"], masked, t, float(want_end))
         if bad:
-            problems.append(("matrix-spec", bad))
+            unmasked_bad = spec_oracle(M, srcl, spec["cutoff"], set(), t, float(want_end)) is None
+            if t < want_start and masked and unmasked_bad:
+                problems.append(("slm-mask-not-applied-before-start",
+                                 f"at t={t} < ti={want_start} (SLM window {smt}) the FULL matrix is returned although "
+                                 f"atoms {sorted(masked)} are masked until {want_end}: {bad}"))
+            else:
+                problems.append(("matrix-spec", bad))
             break
         if any(M[i][j] != M[j][i] for i in range(n) for j in range(n)) or any(M[i][i] != 0 for i in range(n)):
             problems.append(("not-symmetric", f"matrix at t={t} is not symmetric with zero diagonal"))
@@ -283,17 +335,23 @@ def run_pulserdata(ctx, spec):
     return pd, not problems
 
 
-class RecordingCallable:  # rebinding target for pulser_adapter._InteractionMatrixCallable
-    log = []
+QUERY_LOG = []
+RecordingCallable = None   # built by make_recording(): a subclass of the CURRENT source class, any constructor signature
 
-    def __init__(self, full_matrix, masked_matrix, slm_end_time):
-        self.full_matrix = full_matrix
-        self.masked_matrix = masked_matrix
-        self.slm_end_time = slm_end_time
+
+def make_recording():
+    """a picklable (module-level name) subclass of pulser_adapter._InteractionMatrixCallable that logs the query times"""
+    global RecordingCallable
+    from emu_base import pulser_adapter
+
+    base = pulser_adapter._InteractionMatrixCallable
 
     def __call__(self, t):
-        RecordingCallable.log.append(float(t))
-        return self.masked_matrix if t < self.slm_end_time else self.full_matrix
+        QUERY_LOG.append(float(t))
+        return base.__call__(self, t)
+
+    RecordingCallable = type("RecordingCallable", (base,), {"__call__": __call__, "__module__": __name__})
+    return RecordingCallable
 
 
 def run_backends(ctx, spec):
@@ -326,13 +384,14 @@ def run_backends(ctx, spec):
                                   gpu=False, **kw)
             be = emu_sv.SVBackend(seq, config=cfg)
         saved = pulser_adapter._InteractionMatrixCallable
-        pulser_adapter._InteractionMatrixCallable = RecordingCallable
-        RecordingCallable.log = []
+        rec_cls = make_recording()
+        pulser_adapter._InteractionMatrixCallable = rec_cls
+        del QUERY_LOG[:]
         try:
             be.run()
         finally:
             pulser_adapter._InteractionMatrixCallable = saved
-        rec = list(RecordingCallable.log)
+        rec = list(QUERY_LOG)
         pd = pulser_adapter.PulserData(sequence=seq, config=cfg, dt=spec["dt"])
         times = [float(t) for t in pd.target_times]
         nsteps = len(times) - 1
@@ -353,6 +412,42 @@ def run_backends(ctx, spec):
                               {"spec": spec, "backend": name, "finding_key": f"query-time-{name}", "kind": "backend"})
                 break
     return ok, detail
+
+
+def run_e2e_xy(ctx, p):
+    """emu-mps, XY, 3 atoms, SLM mask on one atom, a delay before the first global pulse, initial state with the
+    excitation ON the masked atom.  Exact reference (dense, trivially solvable): while the mask is on the masked atom
+    neither interacts nor is driven, so the excitation number of that atom is conserved: its occupation is exactly 1
+    at t = ti and at t = tf; after the mask it must start to spread."""
+    import pulser
+    import torch
+    from pulser.backend import Occupation
+    import emu_mps
+
+    reg = pulser.Register.rectangle(3, 1, spacing=8.0, prefix="q")
+    seq = pulser.Sequence(reg, pulser.MockDevice)
+    seq.declare_channel("ch", "mw_global")
+    seq.config_slm_mask([f"q{p['masked']}"])
+    seq.delay(p["delay"], "ch")
+    seq.add(pulser.Pulse.ConstantPulse(p["pulse"], 1.0, 0.0, 0.0), "ch")
+    seq.add(pulser.Pulse.ConstantPulse(p["tail"], 0.0, 0.0, 0.0), "ch")
+    total = p["delay"] + p["pulse"] + p["tail"]
+    ev = [p["delay"] / total, (p["delay"] + p["pulse"]) / total, 1.0]
+    bits = "".join("1" if i == p["masked"] else "0" for i in range(3))
+    state = emu_mps.MPS.from_state_amplitudes(eigenstates=("0", "1"), amplitudes={bits: 1.0})
+    cfg = emu_mps.MPSConfig(observables=[Occupation(evaluation_times=ev)], dt=p["dt"], initial_state=state,
+                            optimize_qubit_ordering=False, log_level=50)
+    res = emu_mps.MPSBackend(seq, config=cfg).run()
+    occ = [torch.as_tensor(o).real.tolist() for o in res.occupation]
+    m = p["masked"]
+    ctx.count_case({"e2e_xy": p, "occupation": occ}, True)
+    if abs(occ[0][m] - 1.0) > 1e-6 or abs(occ[1][m] - 1.0) > 1e-6:
+        ctx.violation(f"emu-mps XY run: the excitation leaves the SLM-masked atom {m} while the mask is on "
+                      f"(window {list(seq._slm_mask_time)}): occupation at ti/tf/T = {occ}; exact value is 1 until tf",
+                      {"e2e": p, "occupation": occ, "finding_key": "slm-masked-atom-interacts-e2e", "kind": "e2e"})
+    if not occ[2][m] < 1.0 - 1e-6:
+        return False, f"after the mask the excitation does not spread: {occ} (the reference run is not sensitive)"
+    return True, ""
 
 
 def corpus_cases():
@@ -413,7 +508,7 @@ def run(ctx):
                   f"{'slm0' if c['slm_end'] == 0 else 'slm>0'}"
             hist[key] = hist.get(key, 0) + 1
         ctx.extra["input_distribution"] = dict(sorted(hist.items()))
-    except (common.CoqEvalError, ValueError, AssertionError, IndexError, RuntimeError) as ex:
+    except Exception:  # noqa: BLE001  any failure of this stage is a broken tie; the next stages still run
         import traceback
         ok, detail = False, traceback.format_exc()
     ctx.obligation("correspondence:Model.Interaction.interaction_at == PulserData.get_sequences + callable (exact)",
@@ -422,6 +517,7 @@ def run(ctx):
     # real sequences through __init__
     specs = [s for s in corpus_cases() if s.get("kind") == "spec"]
     specs += [gen_seq_spec(rng) for _ in range(ctx.n(12, 150))]
+    specs += [gen_seq_spec(rng, late_mask=True) for _ in range(ctx.n(10, 100))]   # first global pulse at ti > 0
     init_ok, init_detail = True, ""
     for s in specs:
         try:
@@ -436,6 +532,7 @@ def run(ctx):
     # backend query times
     bspecs = [gen_seq_spec(rng, small=True) for _ in range(ctx.n(2, 12))]
     bspecs[0]["targets"] = bspecs[0]["targets"] or [0]
+    bspecs.append(dict(gen_seq_spec(rng, small=True, late_mask=True), local_first=False))
     q_ok, q_detail = True, ""
     for s in bspecs:
         try:
@@ -448,11 +545,25 @@ def run(ctx):
     ctx.obligation("correspondence:Model.mps_query_trace/sv_query_trace == times at which the backends call "
                    "interaction_matrix(t)", q_ok, q_detail, kind="correspondence")
 
+    # end to end: XY, delay before the masked pulse, excitation on the masked atom
+    try:
+        e_ok, e_detail = run_e2e_xy(ctx, {"delay": 40, "pulse": 40, "tail": 40, "dt": 10, "masked": 0})
+        if ctx.thorough():
+            e2, d2 = run_e2e_xy(ctx, {"delay": 100, "pulse": 60, "tail": 40, "dt": 10, "masked": 2})
+            e_ok, e_detail = (e_ok and e2), (e_detail or d2)
+    except Exception:  # noqa: BLE001
+        import traceback
+        e_ok, e_detail = False, traceback.format_exc()
+    ctx.obligation("end-to-end:emu-mps XY run with a delay before the SLM pulse ran and was compared with the exact "
+                   "invariant", e_ok, e_detail, kind="correspondence")
+
     ctx.rule = ("stand-in route: random symmetric (and, in the malformed stream, asymmetric / non-zero-diagonal) integer "
                 "matrices N=1..7 scaled by 2^-shift, entries at and next to +-cutoff, plain/(1,N,N)/(2,N,N) trajectory "
                 "matrices, user matrix or not, 0..N masked atoms (duplicates in the malformed stream), slm_end in "
                 "{0, inside, T/2, T, >T}, query times on both sides of and exactly at slm_end; real pulser sequences "
-                "(Rydberg and XY, SLM mask, custom matrix, cutoff) through PulserData.__init__; both backends run with a "
+                "(Rydberg and XY, SLM mask, first global pulse at ti = 0 and ti > 0 (delay / local-channel pulse first), custom "
+                "matrix, cutoff; query times below ti, inside [ti, tf), after tf, at every target time and step midpoint) through "
+                "PulserData.__init__; an emu-mps XY run with the excitation on the masked atom; both backends run with a "
                 "recording callable. Non-trivial = N>=2 and (cutoff>0 or a masked atom)")
     ctx.trusted_base += ["hand model Model/Interaction.v (validated by the exact correspondence on every run)",
                          "comparisons and zeroing are exact in binary64: integer/dyadic data make the float pipeline equal "
@@ -476,6 +587,8 @@ def replay(ctx, path):
         run_pulserdata(ctx, rp["spec"])
     elif rp.get("kind") == "backend":
         print(run_backends(ctx, rp["spec"]))
+    elif rp.get("kind") == "e2e":
+        print(run_e2e_xy(ctx, rp["e2e"]))
     else:
         print("nothing to replay in", path)
 
